@@ -180,3 +180,32 @@ func init() {
 		return p.e.ts.BV(64, uint64(len(p.logs["dec.queue"])))
 	}
 }
+
+func init() {
+	externals["fmt.Appendf"] = func(p *Path, fr *frame, a []Value) Value {
+		s := p.sprintf(a[1].(*Str), a[2].(Slice))
+		if s.opaque {
+			panic(engineError("fmt.Appendf with a symbolic numeric argument"))
+		}
+		out, _ := a[0].(Slice)
+		for _, t := range s.b {
+			out = append(out, t)
+		}
+		if out == nil {
+			out = Slice{}
+		}
+		return out
+	}
+	externals["(net.IP).String"] = func(p *Path, fr *frame, a []Value) Value {
+		ip, _ := a[0].(Slice)
+		var raw []byte
+		for _, v := range ip {
+			t := v.(*Term)
+			if !t.isConst {
+				return &Str{b: []*Term{p.e.byteConst['?']}, opaque: true}
+			}
+			raw = append(raw, byte(t.u))
+		}
+		return p.e.strOf(netIPString(raw))
+	}
+}
